@@ -59,12 +59,16 @@ pub fn run_case(ctx: &Ctx, sz: &Sizes, case: u64, proxy: &RouterProxy, global: b
     let mut routes: Vec<Route> = Vec::new();
     for i in 0..nroutes {
         let (tx, rx) = must("channel", ipc::channel::<M>());
-        let total = r.below(51) as u32;
-        let pre = if r.chance(500) { r.below(total as u64 + 1).min(20) as u32 } else { 0 };
+        // occasionally a long backlog queued before registration and a burst pending at the drop
+        let deep = r.chance(120);
+        let total = if deep { r.range(60, 160) } else { r.below(51) } as u32;
+        let pre = if deep { total } else if r.chance(500) { r.below(total as u64 + 1) as u32 } else { 0 };
         let mut multi_left = 1;
         let lens: Vec<usize> = (0..total)
             .map(|_| {
-                if allow_multi && multi_left > 0 && r.chance(60) {
+                if deep {
+                    r.below(24) as usize
+                } else if allow_multi && multi_left > 0 && r.chance(60) {
                     multi_left -= 1;
                     sz.f1 + r.range(1, 2 * sz.f2 as u64) as usize
                 } else {
@@ -74,7 +78,7 @@ pub fn run_case(ctx: &Ctx, sz: &Sizes, case: u64, proxy: &RouterProxy, global: b
             .collect();
         let tag = i as u32;
         for s in 0..pre {
-            tx.send((tag, s, Blob(body(mid(case, tag, s), lens[s as usize].min(600))))).expect("pre-queue");
+            tx.send((tag, s, Blob(body(mid(case, tag, s), lens[s as usize])))).expect("pre-queue");
         }
         routes.push(Route { tag, kind: r.below(3) as u8, total, pre, tx: Some(tx), rx: Some(rx), lens, last_drop_begin: Arc::new(AtomicU64::new(0)) });
     }
